@@ -96,8 +96,23 @@ def check_case(case) -> Result:
     v = v / np.linalg.norm(v) * max(case["vnorm"], 100 * tol)
     Ht = torch.tensor(H, dtype=torch.complex128)
     r.label(spec, vk, "real" if case["real"] else "complex")
-    res = cut(krylov_energy_minimization_impl, lambda x: Ht @ x, torch.tensor(v, dtype=torch.complex128),
-              residual_tolerance=tol, norm_tolerance=tol, max_krylov_dim=case["kdim"], max_restarts=case["restarts"])
+    from pbt.common import CutRaised
+
+    try:
+        res = cut(krylov_energy_minimization_impl, lambda x: Ht @ x, torch.tensor(v, dtype=torch.complex128),
+                  residual_tolerance=tol, norm_tolerance=tol, max_krylov_dim=case["kdim"], max_restarts=case["restarts"])
+    except CutRaised as e:
+        # attribution of one specific failure: the absolute breakdown test (beta < norm_tolerance) cannot fire when the
+        # tolerance lies below the rounding level of the operator (~1e4*eps*|H|); Lanczos then runs past an exhausted
+        # invariant subspace on rounding noise, loses orthogonality and may end in "Ritz vector has zero norm"
+        if isinstance(e.exc, ValueError) and "Ritz vector has zero norm" in str(e.exc) and tol <= 1e4 * 2.3e-16 * normH \
+                and case["kdim"] >= n - 1:
+            r.fail("ritz_vector_zero_norm:tolerance_below_rounding_level",
+                   f"ValueError('Ritz vector has zero norm'): tol={tol:g}, |H|={normH:.3g} (tol/|H|={tol / normH:.1e}), dim={n}, "
+                   f"max_krylov_dim={case['kdim']}, start vector {vk}")
+            r.nontrivial = n >= 4
+            return r
+        raise
     psi = res.ground_state.numpy()
     E = float(res.ground_energy)
     r.nontrivial = n >= 4 and res.iteration_count >= 2
